@@ -145,10 +145,6 @@ def r1_r6(ctx, sch):
                detail=None if (guarded or sweep) else "a `%s` line with %s_id X gets id X (default id_spec) and the row (X, X, %s)" % (what, what, k[2]))
 
 
-def _select_sites(ctx, funcs):
-    return [s for s in execute_sites(ctx, funcs) if s.stmts and s.stmts[0].verb == "SELECT"]
-
-
 def _ev3(test, env, leaf):
     """Three-valued evaluation of a guard: True / False / None (depends on something else)."""
     if isinstance(test, ast.BoolOp):
@@ -430,82 +426,6 @@ def r4(ctx):
         ok = bool(upd) and all(isinstance(s.stmts[0].sets, list) and [c_.lower() for c_, _ in s.stmts[0].sets] == ["attributes"] for s in upd)
         ctx.ob("R4", ok, "the merged attributes are written back to the stored row", node=h, func=f,
                sig="derived collision writes %s" % ([[c_ for c_, _ in s.stmts[0].sets] if isinstance(s.stmts[0].sets, list) else s.stmts[0].sets for s in upd] or None), nontrivial=False)
-
-
-class _Ev:
-    """Tiny evaluator for routing tests over {force_gff, fmt}."""
-
-    def __init__(self, env, fmt_exprs):
-        self.env, self.fmt_exprs = env, fmt_exprs
-
-    def ev(self, n):
-        if isinstance(n, ast.BoolOp):
-            vals = [self.ev(v) for v in n.values]
-            return all(vals) if isinstance(n.op, ast.And) else any(vals)
-        if isinstance(n, ast.UnaryOp) and isinstance(n.op, ast.Not):
-            return not self.ev(n.operand)
-        if isinstance(n, ast.Compare) and len(n.ops) == 1:
-            a, b = self.val(n.left), self.val(n.comparators[0])
-            if isinstance(n.ops[0], ast.Eq):
-                return a == b
-            if isinstance(n.ops[0], ast.NotEq):
-                return a != b
-            if isinstance(n.ops[0], ast.In):
-                return a in b
-        if isinstance(n, ast.Name) and n.id in self.env:
-            return bool(self.env[n.id])
-        raise ValueError(norm(n))
-
-    def val(self, n):
-        if isinstance(n, ast.Constant):
-            return n.value
-        if norm(n) in self.fmt_exprs:
-            return self.env["fmt"]
-        if isinstance(n, ast.Name) and n.id in self.env:
-            return self.env[n.id]
-        if isinstance(n, (ast.Tuple, ast.List)):
-            return [self.val(e) for e in n.elts]
-        raise ValueError(norm(n))
-
-
-def _cascade(node):
-    """[(test, body)] of an if/elif/else chain; else has test None."""
-    out = []
-    while True:
-        out.append((node.test, node.body))
-        if len(node.orelse) == 1 and isinstance(node.orelse[0], ast.If):
-            node = node.orelse[0]
-            continue
-        if node.orelse:
-            out.append((None, node.orelse))
-        break
-    return out
-
-
-def _creator_in(body, proj, func):
-    for st in body:
-        for n in ast.walk(st):
-            if isinstance(n, (ast.Name, ast.Attribute)):
-                d = proj.dotted(n, func.module, func)
-                if d in ("create._GFFDBCreator", "create._GTFDBCreator"):
-                    return d.split(".")[-1]
-    for st in body:
-        if isinstance(st, ast.Raise):
-            return "raise"
-    return None
-
-
-def _default_idspec(body, ctx, func):
-    for st in body:
-        for n in ast.walk(st):
-            if isinstance(n, ast.Assign):
-                tgt = norm(n.targets[0])
-                if tgt in ("id_spec", "kwargs['id_spec']"):
-                    v = n.value
-                    if isinstance(v, ast.BoolOp) and isinstance(v.op, ast.Or):
-                        v = v.values[-1]
-                    return ctx.folder.try_fold(v, func.module.name, default=norm(v))
-    return None
 
 
 def r5_format_routing(ctx, rule="R5"):
